@@ -32,6 +32,7 @@ type World struct {
 	guardPkg    map[*GuardSpec]string
 	guardedArrays map[string]*GuardSpec
 	globals     map[*ssa.Global]*Cell
+	ginfo       map[*ssa.Global]globalInfo
 	overlay     map[string][]byte
 }
 
@@ -214,7 +215,7 @@ func (w *World) globalCell(x *Exec, g *ssa.Global) *Cell {
 	if c, ok := w.globals[g]; ok {
 		return c
 	}
-	c := &Cell{id: -len(w.globals) - 1, name: g.Name(), typ: g.Type().Underlying().(*types.Pointer).Elem()}
+	c := &Cell{id: -len(w.globals) - 1, name: g.Name(), typ: g.Type().Underlying().(*types.Pointer).Elem(), global: g}
 	w.globals[g] = c
 	return c
 }
@@ -340,4 +341,91 @@ func (w *World) implementations(c *Contract) (impls []*ssa.Function, own []strin
 		}
 	}
 	return impls, own, ""
+}
+
+// globalInfo: how a package-level variable is written. initOnly: its only
+// stores are in the package initialiser and its address is used for nothing
+// but loads, so it is a constant of the running program; nonNil: that one
+// store puts the result of errors.New / fmt.Errorf there.
+type globalInfo struct {
+	initOnly bool
+	nonNil   bool
+}
+
+func (w *World) globalInfoOf(g *ssa.Global) globalInfo {
+	if w.ginfo == nil {
+		w.ginfo = map[*ssa.Global]globalInfo{}
+	}
+	if gi, ok := w.ginfo[g]; ok {
+		return gi
+	}
+	gi := globalInfo{initOnly: true}
+	pkg := g.Pkg
+	stores := 0
+	var visit func(fn *ssa.Function)
+	visit = func(fn *ssa.Function) {
+		isInit := fn.Name() == "init" && fn.Parent() == nil && fn.Signature.Recv() == nil
+		for _, b := range fn.Blocks {
+			for _, in := range b.Instrs {
+				for _, op := range in.Operands(nil) {
+					if *op != ssa.Value(g) {
+						continue
+					}
+					switch t := in.(type) {
+					case *ssa.UnOp:
+						// load
+					case *ssa.Store:
+						if t.Addr == ssa.Value(g) && isInit {
+							stores++
+							if c, ok := t.Val.(*ssa.Call); ok {
+								if f := c.Call.StaticCallee(); f != nil && (f.String() == "errors.New" || f.String() == "fmt.Errorf") {
+									gi.nonNil = true
+								}
+							}
+							if mi, ok := t.Val.(*ssa.MakeInterface); ok {
+								if c, ok := mi.X.(*ssa.Call); ok {
+									if f := c.Call.StaticCallee(); f != nil && (f.String() == "errors.New" || f.String() == "fmt.Errorf") {
+										gi.nonNil = true
+									}
+								}
+							}
+						} else {
+							gi.initOnly = false
+						}
+					default:
+						gi.initOnly = false
+					}
+				}
+			}
+		}
+		for _, a := range fn.AnonFuncs {
+			visit(a)
+		}
+	}
+	if pkg != nil {
+		for _, m := range pkg.Members {
+			switch t := m.(type) {
+			case *ssa.Function:
+				visit(t)
+			case *ssa.Type:
+				if n, ok := t.Type().(*types.Named); ok {
+					for i := 0; i < n.NumMethods(); i++ {
+						if fn := w.prog.FuncValue(n.Method(i)); fn != nil {
+							visit(fn)
+						}
+					}
+				}
+			}
+		}
+	} else {
+		gi.initOnly = false
+	}
+	if g.Object() != nil && g.Object().Exported() {
+		gi.initOnly = false // other packages may assign it
+	}
+	if stores != 1 {
+		gi.nonNil = false
+	}
+	w.ginfo[g] = gi
+	return gi
 }
